@@ -169,7 +169,7 @@ def build_comp(cd):
     from mingus.containers import Composition
     c = Composition()
     c.set_title(cd.get("title", "Untitled"), cd.get("subtitle", ""))
-    c.set_author(cd.get("author", ""), "")
+    c.set_author(cd.get("author", ""), cd.get("email", ""))
     shared = {}
     for td in cd["tracks"]:
         instr = None
